@@ -82,8 +82,12 @@ def to_csv(val):
     # leading or trailing whitespaces.
     unicode_values = list(map(str.strip, map(str, val)))
     # A single value is stored as plain text; 'from_csv' returns it unchanged.
+    # Only an empty value or a value that itself looks like a list has to be
+    # written as a one element list to be read back as it was.
     if len(unicode_values) == 1:
-        return unicode_values[0]
+        single = unicode_values[0]
+        if single and not (single[0] == "[" and single[-1] == "]"):
+            return single
 
     stream = StringIO()
     writer = csv.writer(stream, dialect="excel")
@@ -91,7 +95,7 @@ def to_csv(val):
     # Strip any csv.writer added carriage return line feeds before saving.
     # Double quotes are part of the csv encoding 'from_csv' relies on.
     csv_string = stream.getvalue().strip()
-    if len(unicode_values) > 1:
+    if unicode_values:
         csv_string = "[" + csv_string + "]"
     return csv_string
 
